@@ -229,6 +229,8 @@ fn lz_decoder_scripts(rep: &mut Report, rng: &mut Rng, n: u64) {
 }
 
 pub fn run_c07(rep: &mut Report, rng: &mut Rng, thorough: bool) {
+    // BCJ2: the four input streams in pieces, the output in reads of 1..7 / 4096 / 70000 bytes
+    crate::bcj2::run(rep, rng, thorough);
     lz_decoder_scripts(rep, rng, if thorough { 30000 } else { 3000 });
     // the state a filter carries from one piece to the next, checked call by call against the model
     crate::c11::bcj_steps(rep, rng, if thorough { 40000 } else { 4000 });
@@ -668,8 +670,15 @@ pub fn run_c18(rep: &mut Report, rng: &mut Rng, thorough: bool) {
                 let mut o2 = lz.clone();
                 o2.preset = None;
                 let mut fail_at: Option<usize> = None;
+                // every constructor through which an expected size can be given: header / no header, with and
+                // without an end marker
+                let (use_header, use_marker) = *r.pick(&[(true, false), (true, false), (true, true), (false, false), (false, true)]);
                 let res = guard(|| {
-                    let mut w = LZMAWriter::new_use_header(Vec::new(), &o2.to_opts(), Some(declared))?;
+                    let mut w = if use_header && !use_marker {
+                        LZMAWriter::new_use_header(Vec::new(), &o2.to_opts(), Some(declared))?
+                    } else {
+                        LZMAWriter::new(Vec::new(), &o2.to_opts(), use_header, use_marker, Some(declared))?
+                    };
                     let mut off = 0;
                     for (k, &n) in parts.iter().enumerate() {
                         let n = n.min(data.len() - off);
@@ -683,16 +692,16 @@ pub fn run_c18(rep: &mut Report, rng: &mut Rng, thorough: bool) {
                 });
                 if parts.len() <= 5000 && parts.iter().sum::<usize>() == data.len() {
                     let exp = match (&res, fail_at) {
-                        (Outcome::Ok(c), _) => format!("ok {}", u64::from_le_bytes(c[5..13].try_into().unwrap())),
+                        (Outcome::Ok(c), _) => format!("ok {}", if use_header { u64::from_le_bytes(c[5..13].try_into().unwrap()) } else { declared }),
                         (_, Some(k)) => format!("errwrite {k}"),
                         _ => "errfinish".to_string(),
                     };
                     rep.model(format!("lzma.expected exp={declared} parts={}", nats(&parts)), exp);
                 }
-                let d = json!({"writer": ".lzma expected size", "declared": declared, "written": data.len(), "partition": pstyle, "case": i});
+                let d = json!({"writer": ".lzma expected size", "use_header": use_header, "use_end_marker": use_marker, "declared": declared, "written": data.len(), "partition": pstyle, "case": i});
                 match (&res, declared == data.len() as u64) {
                     (Outcome::Ok(c), true) => {
-                        let hdr = u64::from_le_bytes(c[5..13].try_into().unwrap());
+                        let hdr = if use_header { u64::from_le_bytes(c[5..13].try_into().unwrap()) } else { data.len() as u64 };
                         if hdr != data.len() as u64 {
                             rep.fail("lzma-header-size", &format!("header says {hdr}, {} bytes were written", data.len()), d);
                         }
